@@ -1324,13 +1324,13 @@ fn channels() -> Vec<Channel> {
         Channel { name: "find_graph", tol: Tol::Exact, run: run_find_graph, oracle: Some(oracle_find_graph), modelled: false,
             rust_fn: "chordal_info::find_graph (QDLDL symbolic + AMD, connect_graph)", lean: "(input of the model)" },
         Channel { name: "sntree.new", tol: Tol::Exact, run: run_sntree_new, oracle: None, modelled: true,
-            rust_fn: "SuperNodeTree::new (parent_from_L, post_order, pothen_sun, find_supernodes, find_separators)",
+            rust_fn: "SuperNodeTree::new (parent_from_L, post_order, pothen_sun, find_supernodes, find_separators; new_vertex_sets = the empty sets these start from; the accessor get_post_order has no caller)",
             lean: "Chordal.SuperNodeTree.new" },
         Channel { name: "analysis", tol: Tol::Exact, run: run_analysis, oracle: Some(oracle_analysis), modelled: true,
-            rust_fn: "SparsityPattern::new (none / parent_child merge, reorder_snode_consecutively, calculate_block_dimensions)",
+            rust_fn: "SparsityPattern::new (none / parent_child merge: MergeStrategy::merge_cliques loop `while !is_done`, ParentChildMergeStrategy::{initialise, is_done, traverse, evaluate, merge_two_cliques, update_strategy, post_process_merge}, determine_parent; reorder_snode_consecutively, calculate_block_dimensions)",
             lean: "Chordal.sparsityPatternNew" },
         Channel { name: "analysis.cg", tol: Tol::Exact, run: run_analysis, oracle: Some(oracle_analysis), modelled: true,
-            rust_fn: "SparsityPattern::new (clique_graph merge)", lean: "Chordal.sparsityPatternNewCG (CGStrategy.{initialise,traverse,evaluate,mergeTwoCliques,updateStrategy,postProcessMerge}, IMat, kruskal, ...)" },
+            rust_fn: "SparsityPattern::new (clique_graph merge: merge_cliques loop `while !is_done`, CliqueGraphMergeStrategy::is_done, find_components / DFS_hashtable inside compute_reduced_clique_graph, determine_parent_cliques)", lean: "Chordal.sparsityPatternNewCG (CGStrategy.{initialise,traverse,evaluate,mergeTwoCliques,updateStrategy,postProcessMerge}, IMat, kruskal, ...)" },
         Channel { name: "cg.trace", tol: Tol::Exact, run: run_cg_trace, oracle: Some(oracle_cg_trace), modelled: true,
             rust_fn: "CliqueGraphMergeStrategy::{initialise,traverse,evaluate,merge_two_cliques,update_strategy} pass by pass (compute_reduced_clique_graph, compute_weights, new_from_triplets, compute_adjacency_table, max_elem, ispermissible, set_entry, dropzeros)",
             lean: "Chordal.CGStrategy.mergeTrace / CGSnap.digest, cgInvClauses (= CGInv, Lemmas/ChordalCGDefs.lean), cgRipB, cgNonemptyB / C17.analysis_clique_graph_valid_partial" },
